@@ -285,7 +285,7 @@ class Units:
                     else:
                         want = TABLES[t[1]][0] if t[0] == "table" else TEXTS[t[1]]
                         self.require(n["i"], want, "index of self.%s" % t[1], n)
-            elif k == "MethodCall" and n.get("method") in ("push", "extend", "extend_from_slice", "insert") and n["args"]:
+            if k == "MethodCall" and n.get("method") in ("push", "extend", "extend_from_slice", "insert") and n["args"]:
                 nm = local_name(n["recv"])
                 for (suf, pn), sp in PARAM_SINKS.items():
                     if nm == pn and path_ends(self.f.key, suf):
@@ -295,7 +295,7 @@ class Units:
                         while a2.get("k") == "MethodCall" and a2.get("method") in ("iter", "copied", "cloned", "into_iter"):
                             a2 = peel(a2["recv"])
                         self.require(a2, sp, "value stored into %s" % pn, n)
-            elif k == "Assign":
+            if k == "Assign":
                 l = peel(n["l"])
                 if l.get("k") == "Field":
                     fs = self.field_space(l)
